@@ -339,7 +339,7 @@ def shard_hyp(ctx: Ctx, shard: int, nshards: int, per_shard: int) -> Stats:
         if r:
             st.fail(r[0], {"kind": "scalar", "site": site, "key": key, "value": enc(v)}, r[1])
 
-    drive(scalar_strategy(), one, ctx.shard_seed(shard, 1), per_shard)
+    drive(scalar_strategy(), one, ctx.shard_seed(shard, 1), per_shard, chunk=4000)
     return st
 
 
@@ -424,7 +424,7 @@ def shard_write(ctx: Ctx, shard: int, nshards: int, per_shard: int) -> Stats:
             if r:
                 st.fail(r[0], {"kind": "write", "mode": mode, "value": enc(v)}, r[1])
 
-        drive(strat, one, ctx.shard_seed(shard, 2), per_shard)
+        drive(strat, one, ctx.shard_seed(shard, 2), per_shard, chunk=4000)
     return st
 
 
